@@ -10,10 +10,10 @@ set_option linter.unusedSectionVars false
 variable {F : Type} [Field F] [DecidableEq F]
 
 /-- The verification relation of the multilinear PST scheme (XZZPD19 / Libra, App. A), in exponent
-form: the transcript is well-shaped (`nv` point coordinates, `nv` mask elements, exactly `nv` proof
+form: the transcript is well-shaped (exactly `nv` point coordinates, `nv` mask elements, exactly `nv` proof
 elements) and `e(C − v·g, h) = ∏_{i<nv} e(g^{tᵢ} − zᵢ·g, πᵢ)`. -/
 def MLPCRelation (vk : MLPC.VK F) (c : MLPC.Commitment F) (z : List F) (v : F) (πs : List F) : Prop :=
-  vk.nv ≤ z.length ∧ vk.nv ≤ vk.gMaskRandom.length ∧ πs.length = vk.nv
+  z.length = vk.nv ∧ vk.nv ≤ vk.gMaskRandom.length ∧ πs.length = vk.nv
   ∧ (c.gProduct - v * vk.g) * vk.h
       = MLPC.relSum vk.g (vk.gMaskRandom.take vk.nv) (z.take vk.nv) πs
 
@@ -22,7 +22,7 @@ honest or not. -/
 theorem mlpc_check_iff_relation (vk : MLPC.VK F) (c : MLPC.Commitment F) (z : List F) (v : F)
     (πs : List F) : MLPC.check vk c z v πs = .ok true ↔ MLPCRelation vk c z v πs := by
   unfold MLPCRelation
-  by_cases h1 : vk.nv ≤ z.length
+  by_cases h1 : z.length = vk.nv
   · by_cases h2 : vk.nv ≤ vk.gMaskRandom.length
     · by_cases h3 : πs.length = vk.nv
       · rw [MLPC.check_iff_defect vk c z v πs h1 h2 h3, MLPC.defect_eq_rel, sub_eq_zero]
@@ -30,10 +30,10 @@ theorem mlpc_check_iff_relation (vk : MLPC.VK F) (c : MLPC.Commitment F) (z : Li
       · rw [MLPC.check_proof_length vk c z v πs h3]
         exact ⟨fun h => (by cases h), fun h => absurd h.2.2.1 h3⟩
     · have : MLPC.check vk c z v πs = .error .abort := by
-        unfold MLPC.check; rw [if_pos (Or.inr (by omega))]
+        unfold MLPC.check; rw [if_neg (by omega), if_pos (by omega)]
       rw [this]
       exact ⟨fun h => (by cases h), fun h => absurd h.2.1 h2⟩
-  · rw [MLPC.check_short_point vk c z v πs (by omega)]
+  · rw [MLPC.check_wrong_point_len vk c z v πs h1]
     exact ⟨fun h => (by cases h), fun h => absurd h.1 h1⟩
 
 /-- when the relation fails the verifier answers `false` or aborts — never `true` -/
@@ -46,13 +46,15 @@ theorem mlpc_not_relation (vk : MLPC.VK F) (c : MLPC.Commitment F) (z : List F) 
   · exact Or.inr rfl
   · split
     · exact Or.inr rfl
-    · rename_i h1 h2
-      rw [if_neg h1, if_neg h2] at hn
-      left
-      congr 1
-      cases hd : decide (MLPC.defect vk c z v πs = 0) with
-      | false => rfl
-      | true => rw [hd] at hn; exact absurd rfl hn
+    · split
+      · exact Or.inr rfl
+      · rename_i h1 h2 h3
+        rw [if_neg h1, if_neg h2, if_neg h3] at hn
+        left
+        congr 1
+        cases hd : decide (MLPC.defect vk c z v πs = 0) with
+        | false => rfl
+        | true => rw [hd] at hn; exact absurd rfl hn
 
 /-- honest transcripts satisfy the relation -/
 theorem mlpc_honest_satisfies (g h : F) (t z evals : List F) (n' : Nat)
